@@ -39,9 +39,9 @@ CHECKS = {
                      'padding content is not compared (the protocol leaves it free)'],
     ),
     'C04': dict(
-        pkg='./c04', test='TestC04(Client)?', level='fault_enumeration', helpers={'vdriver': './cmd/vdriver'},
-        quick=dict(shards=4, checks=60),
-        thorough=dict(shards=16, checks=1500, budget_s=3000),
+        pkg='./c04', test='TestC04', level='fault_enumeration', helpers={'vdriver': './cmd/vdriver'},
+        quick=dict(shards=4, checks=60, extra=[dict(test='TestC04Client', checks=20, shards=4)]),
+        thorough=dict(shards=12, checks=1500, budget_s=3000, fuzz=[dict(target='FuzzDeserialize', time='90s', wall=600)], extra=[dict(test='TestC04Client', checks=400, shards=4)]),
         level_text=('Every generated valid packet is subjected to the enumerated fault list: all single-bit flips (exhaustive for packets '
                     '<= 256 bytes), all truncation lengths, extension, re-keying, reflection, garbage bodies, attacker-with-key declared '
                     'lengths {-2^31,-1,len-33..len+33,2^30,2^31-1}, wrong parity, inconsistent plain packets; the expected verdict is '
@@ -72,9 +72,9 @@ CHECKS = {
         assumptions=['net/url parsing of the standard library defines what host/path a link has', 'strings.ToLower defines lower-casing'],
     ),
     'C17': dict(
-        pkg='./c17', test='TestC17', level='exploration',
-        quick=dict(shards=4, checks=25000),
-        thorough=dict(shards=16, checks=400000, budget_s=3000),
+        pkg='./c17', test='TestC17', level='exploration', helpers={'vdriver': './cmd/vdriver'},
+        quick=dict(shards=4, checks=25000, extra=[dict(test='TestC17Client', checks=25, shards=4)]),
+        thorough=dict(shards=12, checks=400000, budget_s=3000, extra=[dict(test='TestC17Client', checks=500, shards=4)]),
         level_text=('Model-based: every generated (code, text) is compared with a restated model of the prefix/suffix table and the catalogue '
                     '(parsed from the text of errors.go only to know which names are documented); all catalogued names and 15 rows x 18 '
                     'parameters are enumerated. Client-level delivery/migration scenarios run against the reference server (see DESIGN).'),
@@ -83,7 +83,7 @@ CHECKS = {
               'all catalogued names, near misses of rows, mutated names, arbitrary strings with % verbs. Non-trivial: text non-empty and one of '
               '{row match, known name, unknown text}; distinct by hash of (code,text).'),
         must_hit=['row:param-int', 'row:param-absent', 'row:param-non-numeric', 'row:param-out-of-range', 'row:param-negative', 'known-name',
-                  'unknown-text', 'unknown-text-with-percent'] + ['row%02d' % i for i in range(15)],
+                  'unknown-text', 'unknown-text-with-percent', 'client:errors', 'client:migrate', 'client:migrate-unconfigured'] + ['row%02d' % i for i in range(15)],
         assumptions=['for a matching row whose parameter is not a decimal int the statement fixes only: no panic, Code kept; Message may be the text or the X form (accepted either way), "+5" likewise',
                      'the catalogue of documented descriptions is read from errors.go as data'],
     ),
@@ -107,9 +107,9 @@ CHECKS = {
                      'the reference conventions reproduce the M1 recorded in the repository\'s 2fa_test.go (checked in bin/setup)'],
     ),
     'C12': dict(
-        pkg='./c12', test='TestC12', level='exploration',
-        quick=dict(shards=8, checks=150),
-        thorough=dict(shards=16, checks=6000, budget_s=3000),
+        pkg='./c12', test='TestC12', level='exploration', helpers={'vdriver': './cmd/vdriver'},
+        quick=dict(shards=8, checks=150, extra=[dict(test='TestC12Resume', checks=15, shards=4)]),
+        thorough=dict(shards=12, checks=6000, budget_s=3000, extra=[dict(test='TestC12Resume', checks=300, shards=4)]),
         level_text=('Model-based state machine: generated histories of store/load/remove/tear operations on three path kinds are executed against the real '
                     'file store and an in-memory model (last store wins); tear enumerates every prefix length 0..n-1 of the file as a crash point.'),
         technique='model-based stateful property testing (rapid) with exhaustive crash-point (file prefix) enumeration per generated session',
@@ -118,7 +118,7 @@ CHECKS = {
               '0..300 arbitrary bytes, salts over all int64 classes, host names of arbitrary valid UTF-8 incl. JSON metacharacters. Non-trivial: a load after a '
               'second store, a torn file, a non-ASCII or metacharacter host, or a negative salt; distinct by hash of the history.'),
         must_hit=['op:tear', 'torn-file', 'load-after-second-store', 'load-after-same-tick-store', 'load-missing', 'path:bare', 'path:relative', 'path:absolute',
-                  'host-non-ascii', 'host-json-metachar', 'salt-negative', 'op:remove', 'op:storeFresh', 'op:loadFresh', 'store-of-an-earlier-value'],
+                  'host-non-ascii', 'host-json-metachar', 'salt-negative', 'op:remove', 'op:storeFresh', 'op:loadFresh', 'store-of-an-earlier-value', 'resume', 'resume-verdict:ok'],
         assumptions=['host names are valid UTF-8 (JSON cannot carry other byte strings)', 'the directory of the path exists',
                      'a crash during writing leaves a prefix of the new content (os.WriteFile truncates, then writes)',
                      'same-tick stores are emulated with os.Chtimes and only for stores through the loader that later loads'],
